@@ -68,18 +68,39 @@ class Check:
         self.fingerprint_changed: list[str] = []
 
     # ---------------------------------------------------------------- proof side
-    def build(self, props_v: list[str], gen_files: list[str]) -> coq.BuildResult:
-        """regenerate Gen/, build the cone of the property's Props files, register obligations"""
-        res = coq.regen_and_build(props_v)
+    def build(self, props_v: list[str], gen_files: list[str], known_v: list[str] | None = None) -> coq.BuildResult:
+        """regenerate Gen/, build the cone of the property's Props files, register obligations.
+        known_v: files holding only `_refuted` witnesses of listed findings; when one stops compiling the
+        defect it witnesses is no longer reproduced by the model, which is recorded, not alarmed on."""
+        known_v = known_v or []
+        res = coq.regen_and_build(props_v + known_v)
+        for kf in known_v:
+            if kf in res.failed:
+                self.notes.append(f"refutation file {kf} no longer checks ({res.failed[kf][:200]}): a listed finding is no longer reproduced by the model")
+                del res.failed[kf]
+            else:
+                self.extra_cov.setdefault("refutation_theorems_checked", []).extend(coq.theorems_in(kf))
         self.checker_cmd = (f"cd /verif/coq && python3 ../translator/run.py && coq_makefile -f _CoqProject -o Makefile && "
                             f"make {' '.join(p[:-2] + '.vo' for p in props_v)}  (coqc 8.16.1, full .vo build)")
         for f in sorted(set().union(*[coq.cone(p) for p in props_v]) if props_v else []):
-            names = coq.theorems_in(f)
-            for n in names:
+            names = coq.theorems_with_lines(f)
+            fail_line = None
+            if f in res.failed:
+                import re as _re
+                mm = _re.match(r"line (\d+):", res.failed[f])
+                fail_line = int(mm.group(1)) if mm else 0
+            for idx, (n, ln) in enumerate(names):
                 ob = f"Thm:{f.replace('theories/', '')}:{n}"
                 self.obligations.append(ob)
-                if f in res.failed:
+                if fail_line is None:
+                    continue
+                nxt = names[idx + 1][1] if idx + 1 < len(names) else 10 ** 9
+                if fail_line and nxt <= fail_line:
+                    continue  # coqc accepted this one before reaching the failing proof
+                if fail_line and ln <= fail_line < nxt:
                     self.broken.append(f"{ob} [{res.failed[f][:300]}]")
+                else:
+                    self.broken.append(f"{ob} [not checked: {res.failed[f][:120]}]")
         for gf, st in res.gen_status.get("files", {}).items():
             if gf not in gen_files:
                 continue
